@@ -10,6 +10,7 @@
 (*      result-tree fragments, xsl:sort, document(''), format-number + xsl:decimal-format;            *)
 (*      string used as a node-set (run-time type error) deep inside when $p = 'stop'                  *)
 (*   S4 calls the external function f (run-time error while it is not installed), top-level param     *)
+(*   S9 calls g, the other function of f's namespace, and shows function-available of both             *)
 (*   S5 a top-level variable (lazily evaluated, reached through a second top-level variable) whose     *)
 (*      evaluation is aborted by xsl:message terminate="yes" when $p = 'stop'                          *)
 (*   S6 a top-level variable that uses $p as a node-set: run-time XPath error whenever p is set        *)
@@ -25,12 +26,13 @@
 (*   SX not well-formed   SV well-formed but not a valid stylesheet   DX not well-formed source       *)
 EXTENDS Integers
 
-PoolSS   == {"S1", "S2", "S3", "S4", "S5", "S6", "S7", "S8", "SD1", "SD2", "SE", "SU", "SM", "SX", "SV"}
+PoolSS   == {"S1", "S2", "S3", "S4", "S5", "S6", "S7", "S8", "S9", "SD1", "SD2", "SE", "SU", "SM", "SX", "SV"}
 PoolSrc  == {"D1", "D2", "DX"}
 PoolPNames == {"p"}
-PoolPVals  == {"str", "num", "obj"}    \* 'stop' as an expression string; 2 as a double; "obj" as an XObjectPtr
+PoolPVals  == {"str", "num", "obj", "nz", "pz"}    \* 'stop' as an expression string; 2 as a double; "obj" as an XObjectPtr; -0.0 / +0.0 as doubles
+PoolNumVals == {"num", "nz", "pz"}     \* the values that go through setStylesheetParam(name, double)
 PoolExprVals == {"str"}                \* the values that go through setStylesheetParam(name, expression)
-PoolFNames == {"f"}
+PoolFNames == {"f", "g", "h"}          \* functions of ONE namespace: f installed on the transformer, g and h process-wide (...Global)
 
 Classes == {"ok", "terminated", "xpathError", "extError", "encoding", "unserializable", "missingDoc",
             "malformedSS", "invalidSS", "malformedSrc"}
@@ -45,6 +47,7 @@ Class(ss, src, ps, fs) ==
   ELSE CASE ss = "S2" /\ ps["p"] = "str" -> "terminated"
          [] ss = "S3" /\ ps["p"] = "str" -> "xpathError"
          [] ss = "S4" /\ ~fs["f"]        -> "extError"
+         [] ss = "S9" /\ ~fs["g"]        -> "extError"
          [] ss = "S5" /\ ps["p"] = "str" -> "terminated"
          [] ss = "S6" /\ ps["p"] # "none" -> "xpathError"
          [] ss = "S7" /\ ps["p"] \in {"str", "num"} -> "xpathError"
